@@ -2,8 +2,8 @@ SPECIFICATION Spec
 CONSTANTS
   Apps <- AllApps
   Catching <- Both
-  Verbs <- Verbs4
-  MCLines <- LinesAll
+  Verbs <- Verbs2
+  MCLines <- LinesEight
   Pres <- PresAll
   MaxListeners = 2
   ListenerKinds <- KindsFew
